@@ -240,7 +240,8 @@ func runAccess(c *caseSpec, d *driver) *caseResult {
 		c.fail(r, "model-panic", "the model predicts a panic at "+m.Site, msg)
 	}
 	switch c.Schema {
-	case "info", "amount", "transactions":
+	case "info", "amount", "transactions", "wallet-ans":
+		// the selection logic of the info route is C18's subject: only the panic class is compared here
 		if (impl == "panic") != (m.Class == "panic") {
 			c.fail(r, "class-mismatch", fmt.Sprintf("implementation %s (status %d), model %s", impl, status, m.Class), msg)
 		}
